@@ -1,14 +1,7 @@
+import Rp2.Model.Group
 namespace Rp2
 
 variable {κ : Type} [DecidableEq κ] {α : Type}
-
-/-- `summaries.setdefault(key, zero)`; `summaries[key] = value + x` on an insertion-ordered dict -/
-def bump (add : α → α → α) (zero : α) : List (κ × α) → κ → α → List (κ × α)
-  | [], k, x => [(k, add zero x)]
-  | (k', s) :: t, k, x => if k' = k then (k', add s x) :: t else (k', s) :: bump add zero t k x
-
-def group (add : α → α → α) (zero : α) (fs : List (κ × α)) : List (κ × α) :=
-  fs.foldl (fun acc f => bump add zero acc f.1 f.2) []
 
 def lookup (k : κ) : List (κ × α) → Option α
   | [] => none
